@@ -372,6 +372,26 @@ def check_type_tables(repo: Repo, rep: Report, w: World) -> None:
                                     f"ill-typed operand vector ({''.join(kinds) or 'empty'}) is accepted")
                     else:
                         rep.ok("OPC-5", f"{fnname}(Op.{op}, {''.join(kinds) or '-'}) {'accepted' if accepted else 'rejected'} as the signature requires", nontrivial=False)
+        # the constant operators take exactly one Python literal of their own kind
+        if op in ("BOOL_CONSTANT", "INT_CONSTANT"):
+            good_lit: Any = True if op == "BOOL_CONSTANT" else 7
+            cases = [([good_lit], True), ([False if op == "BOOL_CONSTANT" else 0], True), ([], False), ([good_lit, good_lit], False),
+                     ([w.leaf("b" if op == "BOOL_CONSTANT" else "i", "x0")], False), ([None], False)]
+            if op == "BOOL_CONSTANT":
+                cases.append(([3], False))  # (an int constant given as True is Python's bool-is-int and reaches no public entry point: not demanded)
+            for vec_c, want_ok in cases:
+                try:
+                    kindr, res = _try(w, lambda: w.cw.call(maker, tag, list(vec_c)))
+                except Undecided as ex:
+                    rep.undecide("OPC-5", f"{maker}(Op.{op}, {vec_c!r}): {ex}")
+                    continue
+                accepted = kindr == "value" and isinstance(res, Obj)
+                if accepted != want_ok:
+                    rep.finding("OPC-5", EXPR, maker, f"{maker} Op.{op} {_brief(vec_c)}",
+                                f"{maker}(Op.{op}, {_brief(vec_c)}) is {'accepted' if accepted else 'rejected'}; a constant takes exactly one Python "
+                                f"{'bool' if op == 'BOOL_CONSTANT' else 'int (not bool)'} literal")
+                else:
+                    rep.ok("OPC-5", f"{maker}(Op.{op}, {_brief(vec_c)}) {'accepted' if accepted else 'rejected'} as the signature requires", nontrivial=False)
         # python literals of the wrong kind
         if lo >= 1 and op not in ("BOOL_CONSTANT", "INT_CONSTANT", "ALLDIFF"):
             kinds_ok = spec["kinds"](max(lo, 1) if hi is not None else 2)
